@@ -296,6 +296,12 @@ func (b *bufferWriter) expectBody(r *http.Request) bool {
 }
 
 func (b *bufferWriter) Close() error {
+	// A response that spilled to disk but whose reader was never requested (over the
+	// limit, HEAD/204/304, Content-Length: 0, gRPC error) would leave its temporary
+	// file behind: only the reader's Close removes it.
+	if rdr, err := b.buffer.Reader(); err == nil {
+		_ = rdr.Close()
+	}
 	return b.buffer.Close()
 }
 
